@@ -285,3 +285,31 @@ fn c26_length_counts_code_points() {
     assert!(int_of(snippet_length(String::from("äbc"))) == Some(3), "length counts code points");
     assert!(int_of(snippet_length(String::new())) == Some(0));
 }
+
+//@range file=rsass/src/sass/functions/string.rs fn=create_module after="def!(f, to_upper_case(string), |s| {" until="\n    });"
+//@  header: fn snippet_to_upper_case_body(string_arg: Value) -> Result<Value, CallError>
+//@  resubst: s\.get::<(\w+)>\(name!\((\w+)\)\)\? => conv::<\1>(\2_arg.clone())?
+//@  resubst: s\.get\(name!\((\w+)\)\)\? => conv(\1_arg.clone())?
+//@end
+
+//@range file=rsass/src/sass/functions/string.rs fn=create_module after="def!(f, to_lower_case(string), |s| {" until="\n    });"
+//@  header: fn snippet_to_lower_case_body(string_arg: Value) -> Result<Value, CallError>
+//@  resubst: s\.get::<(\w+)>\(name!\((\w+)\)\)\? => conv::<\1>(\2_arg.clone())?
+//@  resubst: s\.get\(name!\((\w+)\)\)\? => conv(\1_arg.clone())?
+//@end
+
+/// C26: the case functions change only ASCII letters and keep the
+/// quotedness of their argument.
+#[kani::proof]
+#[kani::unwind(10)]
+fn c26_case_functions_ascii_only_and_quotes() {
+    let q = if kani::any() { Quotes::Double } else { Quotes::None };
+    match text_of(snippet_to_upper_case_body(lit("äbC1-z", q))) {
+        Some((s, rq)) => assert!(s == "äBC1-Z" && rq == q, "to-upper-case: ASCII letters only, quotedness kept"),
+        None => assert!(false, "to-upper-case gives a string"),
+    }
+    match text_of(snippet_to_lower_case_body(lit("ÄBc1-Z", q))) {
+        Some((s, rq)) => assert!(s == "Äbc1-z" && rq == q, "to-lower-case: ASCII letters only, quotedness kept"),
+        None => assert!(false, "to-lower-case gives a string"),
+    }
+}
